@@ -290,6 +290,8 @@ class Expect:
         self.app_cl = False  # Content-Length in the header block was set by the program
         self.auto_etag = None  # ETag computed by Tornado (str) when it applies
         self.own_etag = None  # Etag set by the program itself, on a response eligible for the 304 check
+        self.body_at_error = None  # len(body) already handed to the connection when an exception left the
+        #                            handler after the header block had been sent (None: no such exception)
         self.flushed_early = False  # header block sent by flush() before finish()
         self.bodyless_status = False  # 1xx / 204 / 304
         self.body_on_bodyless = False  # program forced body bytes behind a 1xx/204 header block
@@ -530,6 +532,7 @@ class ProgModel:
         code = r.arg if r.kind == "http" else 500
         # send_error
         if self.hw:
+            self.e.body_at_error = len(self.body)
             try:
                 self.finish()
             except _Raise:
